@@ -19,18 +19,20 @@ Hashing == {"h-default", "h-blake2b-32", "h-blake2b-64", "h-blake2b-1", "h-blake
             "h-sha3-224", "h-unknown-name", "h-blake2b-str", "h-unknown-param"}
 Chunking == {"c-default", "c-64-256", "c-128-128", "c-min-gt-max", "c-min-0", "c-min-neg", "c-max-str", "c-5-6", "c-unknown-name", "c-float", "c-4-4"}
 Encryption == {"e-none", "e-default", "e-chacha", "e-aes-128", "e-aes-192", "e-aes-100", "e-kdf-n3", "e-kdf-r-str", "e-nonce-64", "e-nonce-0", "e-unknown-group",
-               "e-kdf-unknown-param", "e-cipher-unknown", "e-kdf-n-2"}
+               "e-kdf-unknown-param", "e-cipher-unknown", "e-kdf-n-2", "e-kdf-blake2b", "e-kdf-blake2b-chacha", "e-kdf-blake2b-aes-128", "e-nonce-128-aes-192"}
 Extra == {"x-none", "x-unknown-group", "x-hashing-not-a-mapping"}
 
 ValidH == {"h-default", "h-blake2b-32", "h-blake2b-64", "h-blake2b-1", "h-sha2-256", "h-sha3-512", "h-sha3-224"}
 ValidC == {"c-default", "c-64-256", "c-128-128", "c-4-4", "c-5-6"}       \* c-5-6: no aligned length in [min, max]; chunks come out longer than max but nothing is lost
-ValidE == {"e-none", "e-default", "e-chacha", "e-aes-128", "e-aes-192", "e-nonce-64", "e-kdf-n-2"}
+\* the user KDF may be blake2b (documented): its salt has a fixed size, whatever the cipher's key size
+ValidE == {"e-none", "e-default", "e-chacha", "e-aes-128", "e-aes-192", "e-nonce-64", "e-kdf-n-2", "e-kdf-blake2b", "e-kdf-blake2b-chacha", "e-kdf-blake2b-aes-128",
+           "e-nonce-128-aes-192"}
 ValidX == {"x-none"}
 Valid(s) == s.h \in ValidH /\ s.c \in ValidC /\ s.e \in ValidE /\ s.x \in ValidX
 
 \* add-key chains: each link is derived from the previous key (or from the owner)
 LinkKinds == {"independent", "shared", "clone"}
-KdfPalette == {"k-default", "k-n8", "k-r4"}
+KdfPalette == {"k-default", "k-n8", "k-r4", "k-blake2b"}
 CONSTANTS MaxChain
 Chains == UNION {[1..n -> LinkKinds \X KdfPalette] : n \in 1..MaxChain}
 
